@@ -79,6 +79,11 @@ Pool0 == <<
   (* DTLS messages whose fragment_length exceeds their total length (unfragmented by the crate's rule) *)
   Ok_("parse_dtls_message_handshake", NoArgs, EncDtlsHs(14, 0, 3, 0, 2, <<5, 6>>)), Ok_("parse_dtls_message_handshake", NoArgs, EncDtlsHs(16, 1, 1, 0, 3, <<7, 8, 9>>)),
   Ok_("parse_tls_extension_unknown", NoArgs, <<1, 2, 0, 1, 5>>),
+  (* a later DTLS fragment reaching past the end of its message: still fragment-length bytes *)
+  Ok_("parse_dtls_message_handshake", NoArgs, EncDtlsHs(16, 10, 1, 5, 9, <<1, 2, 3, 4, 5, 6, 7, 8, 9>>)), Ok_("parse_dtls_message_handshake", NoArgs, EncDtlsHs(11, 3, 2, 3, 2, <<7, 8>>)),
+  (* the kinds without fields declare a length like any other: that many bytes belong to them *)
+  Ok_("parse_tls_message_handshake", NoArgs, <<5, 0, 0, 3, 1, 2, 3>>), Ok_("parse_tls_message_handshake", NoArgs, <<0, 0, 0, 4, 14, 0, 0, 0>>),
+  Ok_("parse_tls_plaintext", NoArgs, EncRecordRaw(22, 771, <<5, 0, 0, 2, 9, 9, 14, 0, 0, 0>>)),
   Ok_("parse_ct_signed_certificate_timestamp", NoArgs, EncSct(Sc)),
   Ok_("parse_ct_signed_certificate_timestamp_list", NoArgs, EncSctList(<<Sc, Sc>>)),
   Ok_("parse_ct_signed_certificate_timestamp_list", NoArgs, <<0, 0>>),
